@@ -376,6 +376,25 @@ def check_reads(b, ref, ordered, r):
         vq[pkey(L[i], L[j])] = fr(x)
     if vq != ref.quad:
         return f'to_numpy_vectors quadratic {vq} != {ref.quad}'
+    # the same vectors without an explicit order (range labels: the index order is used as it is; otherwise the labels are
+    # sorted when they can be), with sorted indices
+    for kw in ({}, {'sort_indices': True}, {'sort_labels': False}):
+        try:
+            ld, (ir, ic, qd), off, labels = b.to_numpy_vectors(return_labels=True, **kw)
+        except Exception as e:  # noqa
+            return f'to_numpy_vectors({kw}) raised {type(e).__name__}: {e}'
+        labels = list(labels)
+        if sorted(map(lab, labels)) != sorted(map(lab, L)) or [fr(x) for x in ld] != [ref.lin[v] for v in labels] or fr(off) != ref.off:
+            return f'to_numpy_vectors({kw}) linear/offset/labels'
+        vq = {}
+        for i, j, x in zip(ir, ic, qd):
+            if pkey(labels[i], labels[j]) in vq or i == j:
+                return f'to_numpy_vectors({kw}) repeats a pair or lists a self-loop'
+            vq[pkey(labels[i], labels[j])] = fr(x)
+        if vq != ref.quad:
+            return f'to_numpy_vectors({kw}) quadratic {vq} != {ref.quad}'
+        if kw.get('sort_indices') and list(zip(map(int, ir), map(int, ic))) != sorted(zip(map(int, ir), map(int, ic))):
+            return 'to_numpy_vectors(sort_indices=True) indices not sorted'
     # energy of one sample (all paths describe the same function)
     if n:
         vals = [-1, 1] if ref.vt == 'SPIN' else [0, 1]
@@ -496,15 +515,38 @@ def gen_ignored_op(r, P, k):
     return ('nz', br, qr, iv, ii, io, cv, ci)
 
 
-def gen_op(r, ref, malformed, obj=False):
-    """returns (kind, args) in canonical Python values; biases are Fractions"""
+RANGE_OPS = ['al', 'sl', 'aq', 'aq', 'aq', 'aq', 'sq', 'sq', 'ri', 'ri', 'rv', 'av', 'rs', 'sc', 'of', 'cv', 'fx', 'ct', 'fl', 'rli',
+             'up', 'alf', 'aqf', 'ala', 'aqd', 'aqd', 'aqd', 'aqd', 'aqd', 'aqd', 'sci', 'nz', 'ao', 'ai', 'fxs', 'rif', 'rvf', 'lec', 'lic']
+WRAPPER_OPS = ('ao', 'ai', 'fxs', 'rif', 'rvf', 'lec', 'lic')
+
+
+def gen_op(r, ref, malformed, obj=False, rmode=False):
+    """returns (kind, args) in canonical Python values; biases are Fractions.
+    `rmode`: the history keeps the model RANGE-labelled (labels 0..n-1 in order) as far as the op allows - new labels are the
+    next integer, removals prefer the last variable -, which is the precondition of the index-level fast paths of the array
+    back-ends (`add_quadratic_from_dense`, `add_linear_from_array`, `to_numpy_vectors` without reindexing)"""
     L = ref.labels
-    def anyl():
-        return r.choice(LABELS)
-    def inl():
-        return r.choice(L) if L and r.random() < .85 else anyl()
-    k = r.choice(['al', 'al', 'sl', 'aq', 'aq', 'aq', 'sq', 'sq', 'ri', 'rv', 'av', 'rs', 'sc', 'of', 'cv', 'fx', 'ct', 'fl',
-                  'rl', 'rl', 'rli', 'cl', 'up', 'alf', 'aqf', 'ala', 'aqd', 'sci', 'sci', 'nz', 'nz'])
+    if rmode and not malformed:
+        nxt = len(L) if is_range(L) else max([x for x in L if isinstance(x, int)] + [-1]) + 1
+        def anyl():
+            return r.choice(L + [nxt, nxt]) if r.random() < .9 else r.choice(LABELS)
+        def inl():
+            return r.choice(L) if L and r.random() < .85 else anyl()
+        k = r.choice(RANGE_OPS)
+        if k in ('rv', 'fx') and L and r.random() < .7:
+            return (k, L[-1]) if k == 'rv' else (k, L[-1], F(r.choice([-1, 0, 1, 1, 2, 3]), r.choice([1, 1, 2])))
+        if k == 'av' and r.random() < .6:
+            return (k, r.choice([None, nxt]), q8(r))
+        if k == 'ct' and len(L) >= 2 and r.random() < .6:
+            return (k, r.choice(L[:-1]), L[-1])       # the last variable is removed: the labels stay a range
+    else:
+        def anyl():
+            return r.choice(LABELS)
+        def inl():
+            return r.choice(L) if L and r.random() < .85 else anyl()
+        k = r.choice(['al', 'al', 'sl', 'aq', 'aq', 'aq', 'sq', 'sq', 'ri', 'rv', 'av', 'rs', 'sc', 'of', 'cv', 'fx', 'ct', 'fl',
+                      'rl', 'rl', 'rli', 'cl', 'up', 'alf', 'aqf', 'ala', 'aqd', 'sci', 'sci', 'nz', 'nz',
+                      'ao', 'ai', 'fxs', 'rif', 'rvf', 'lec', 'lec', 'lic'])
     if k in ('sci', 'nz') and not malformed:
         return gen_ignored_op(r, ref, k)
     if malformed:
@@ -540,6 +582,34 @@ def gen_op(r, ref, malformed, obj=False):
         if k == 'aqf':
             u = anyl()
             return (k, [(anyl(), 'zz', q8(r)), r.choice([(u, u, q8(r)), (u, bl, q8(r))]), (anyl(), 'zq', q8(r))])
+    if k == 'ao':
+        return (k, q8(r, 40))
+    if k == 'ai':
+        u, v = inl(), inl()
+        while v == u:
+            v = anyl()
+        return (k, u, v, q8(r))
+    if k == 'fxs':
+        vs = r.sample(L, r.randint(0, min(3, len(L)))) if L else []
+        return (k, [(v, F(r.choice([-1, 0, 1, 1, 2]))) for v in vs], r.choice(['dict', 'pairs', 'iter']))
+    if k == 'rif':
+        ks = sorted(ref.quad, key=lambda s: sorted(map(lab, s)))
+        ps = [tuple(kk) if r.random() < .5 else tuple(kk)[::-1] for kk in r.sample(ks, r.randint(0, min(3, len(ks))))]
+        return (k, ps, r.choice(['list', 'iter']))
+    if k == 'rvf':
+        vs = r.sample(L, r.randint(0, min(3, len(L)))) if L else []
+        return (k, vs, r.choice(['list', 'iter']))
+    if k in ('lec', 'lic'):
+        # terms on old and new labels, a label may appear in several terms (the array back-end folds the square of a variable
+        # natively); small integer / half-integer coefficients keep every float32 intermediate exact
+        terms = [(inl(), F(r.choice([-2, -1, 1, 1, 2, 3]) if k == 'lic' else r.choice([-4, -2, -1, 1, 2, 2, 4, 6]), 1 if k == 'lic' else 2)) for _ in range(r.randint(0, 4))]
+        if terms and r.random() < .3:
+            terms.append((terms[0][0], terms[-1][1] if r.random() < .5 else -terms[0][1]))
+        lm = F(r.choice([-1, 1, 1, 2, 4, 1]), r.choice([1, 1, 2]))
+        if k == 'lec':
+            return (k, terms, lm, F(r.choice([-4, -2, -1, 0, 1, 2, 3]), 2), r.choice(['list', 'iter']))
+        lo = r.randint(-3, 2)
+        return (k, terms, lm, r.choice(['c', 'k1', 7]), r.randint(-1, 1), lo, lo + r.choice([0, 0, 1, 2, 3, 5]), r.choice(['list', 'iter']))
     if k in ('al', 'sl'):
         return (k, inl(), q8(r))
     if k in ('aq', 'sq'):
@@ -622,7 +692,20 @@ def gen_op(r, ref, malformed, obj=False):
         rng_lab = L == list(range(len(L)))
         if rng_lab and r.random() < .5:
             n = len(L) + r.randint(1, 2)          # larger than a range-labelled model: the native model is resized
-        d = [[q8(r) if (i != j and r.random() < .6) else F(0) for j in range(n)] for i in range(n)]
+        elif rng_lab and rmode:
+            n = r.choice([len(L), len(L), r.randint(0, len(L))])     # the whole model / its leading block
+        dens = r.choice([.6, .6, .25, 1.0]) if rmode else .6
+        d = [[q8(r) if (i != j and r.random() < dens) else F(0) for j in range(n)] for i in range(n)]
+        if rmode and rng_lab and ref.quad and r.random() < .6:
+            # aim at interactions the model already holds (upper entry, lower entry, or split over both) and leave most other
+            # pairs alone: whether a term can be appended or has to be merged depends on where the pair sits in both neighbourhoods
+            if r.random() < .5:
+                d = [[F(0)] * n for _ in range(n)]
+            for kk in r.sample(sorted(ref.quad, key=lambda s: sorted(s)), r.randint(1, min(3, len(ref.quad)))):
+                i, j = sorted(kk)
+                if j < n:
+                    x = q8(r) or F(3, 8)
+                    d[i][j], d[j][i] = r.choice([(x, F(0)), (F(0), x), (x, x), (x - F(1, 4), F(1, 4)), (-ref.quad[kk], F(0))])
         if n and r.random() < (.4 if rng_lab and n > len(L) else .1):
             # rejected for its diagonal; when the matrix is larger than the model the rejection has to come before the
             # resize (a rejected call leaves the model unchanged): first / last / any row
@@ -654,6 +737,8 @@ def proto_ok(x):
 def line_of(via, op, ref):
     """protocol line for the Lean model; wrong-typed arguments become the `xx` (malformed) op"""
     k = op[0]
+    if k in WRAPPER_OPS:
+        return None          # thin wrappers of the Python layer: no model op, the model is re-loaded with the state after
     if k in ('sci', 'nz'):
         # `Bqm.vScaleIgnoring` / `Bqm.vNormalize` (DimodModel/BqmScaleIgn.lean): the ignored containers as lists
         iv, ii, io = op[-5:-2]
@@ -704,7 +789,10 @@ def line_of(via, op, ref):
         if k == 'ala':
             return 'ala ' + (','.join(rat(x) for x in op[1]) or '-')
         if k == 'aqd':
-            return f'aqd {len(op[1])} ' + (','.join(rat(x) for row in op[1] for x in row) or '-')
+            # direct calls go, alternately, to the operation of `Bqm.step` (sorted insert everywhere) and to the call AS CODED with
+            # its `is_linear()` append branch (`Bqm.addQuadraticFromDenseCoded`, equal by `C04.dense_as_coded_refines`)
+            coded = via == 'd' and sum(1 for row in op[1] for x in row if x != 0) % 2 == 0
+            return f'{"aqdc" if coded else "aqd"} {len(op[1])} ' + (','.join(rat(x) for row in op[1] for x in row) or '-')
         raise AssertionError(k)
     try:
         return f'{via} {body()}'
@@ -750,6 +838,15 @@ def src_of(name, op, selfname='b'):
         if k == 'sci':
             return f'{name}.scale({float(op[1])!r}{kw})'
         return f'{name}.normalize({rv(op[1])}' + (f', {rv(op[2])}' if op[2] is not None else '') + kw + ')'
+    wrap = lambda how, lit: f'dict({lit})' if how == 'dict' else f'iter({lit})' if how == 'iter' else lit
+    if k == 'ao': return f'{name}.add_offset({a[0]!r})'
+    if k == 'ai': return f'{name}.add_interaction({a[0]!r}, {a[1]!r}, {a[2]!r})'
+    if k == 'fxs': return f'{name}.fix_variables({wrap(op[2], repr([(v, pyval(x)) for v, x in op[1]]))})'
+    if k == 'rif': return f'{name}.remove_interactions_from({wrap(op[2], repr(list(op[1])))})'
+    if k == 'rvf': return f'{name}.remove_variables_from({wrap(op[2], repr(list(op[1])))})'
+    if k == 'lec': return f'{name}.add_linear_equality_constraint({wrap(op[4], repr([(v, pyval(x)) for v, x in op[1]]))}, {float(op[2])!r}, {float(op[3])!r})'
+    if k == 'lic': return (f'{name}.add_linear_inequality_constraint({wrap(op[7], repr([(v, int(x)) for v, x in op[1]]))}, {float(op[2])!r}, {op[3]!r}, '
+                           f'constant={op[4]!r}, lb={op[5]!r}, ub={op[6]!r})')
     if k == 'alf': return f'{name}.add_linear_from({[(v, pyval(x)) for v, x in op[1]]!r})'
     if k == 'aqf': return f'{name}.add_quadratic_from({[(u, v, pyval(x)) for u, v, x in op[1]]!r})'
     if k == 'ala': return f'{name}.add_linear_from_array({[float(x) for x in op[1]]!r})'
@@ -816,6 +913,22 @@ def apply_real(obj, op, base):
         else:
             o = op[1]
             obj.update(mk(o.vt, [(v, float(o.lin[v])) for v in o.labels], [(tuple(kk), float(x)) for kk, x in o.quad.items()], float(o.off), base.dtype))
+    elif k in WRAPPER_OPS:
+        import warnings
+        wrap = lambda how, x: dict(x) if how == 'dict' else iter(x) if how == 'iter' else x
+        with warnings.catch_warnings():
+            warnings.simplefilter('ignore')
+            if k == 'ao': obj.add_offset(a[0])
+            elif k == 'ai': obj.add_interaction(a[0], a[1], a[2])
+            elif k == 'fxs': obj.fix_variables(wrap(op[2], [(v, pyval(x)) for v, x in op[1]]))
+            elif k == 'rif': obj.remove_interactions_from(wrap(op[2], list(op[1])))
+            elif k == 'rvf': obj.remove_variables_from(wrap(op[2], list(op[1])))
+            elif k == 'lec': obj.add_linear_equality_constraint(wrap(op[4], [(v, pyval(x)) for v, x in op[1]]), float(op[2]), float(op[3]))
+            elif k == 'lic':
+                got = obj.add_linear_inequality_constraint(wrap(op[7], [(v, int(x)) for v, x in op[1]]), float(op[2]), op[3], constant=op[4], lb=op[5], ub=op[6])
+                exp = [(f'slack_{op[3]}_{j}', c) for j, c in enumerate(slack_coefficients(op))]
+                if [(v, int(c)) for v, c in got] != exp:
+                    raise AssertionError(f'add_linear_inequality_constraint returned the slack terms {got!r}, the documented decomposition is {exp!r}')
     elif k == 'alf': obj.add_linear_from([(v, pyval(x)) for v, x in op[1]])
     elif k == 'aqf': obj.add_quadratic_from([(u, v, pyval(x)) for u, v, x in op[1]])
     elif k == 'ala': obj.add_linear_from_array([float(x) for x in op[1]])
@@ -826,12 +939,53 @@ def apply_real(obj, op, base):
         raise AssertionError(k)
 
 
-BULK = ('alf', 'aqf', 'up', 'ala', 'aqd')
+def slack_coefficients(op):
+    """`add_linear_inequality_constraint` as documented: lb <= sum a_i x_i + constant <= ub becomes the equality
+    sum a_i x_i + sum b_j slack_j - ub_c = 0 with b = 1, 2, 4, ..., 2**(n-1), S - 2**n + 1 for S = ub_c - lb_c, n = floor(log2 S);
+    [] when S = 0 or the constraint holds for every assignment; None when it is infeasible (ValueError)"""
+    terms, const, lb, ub = op[1], op[4], op[5], op[6]
+    hi = sum(x for _, x in terms if x > 0); lo = sum(x for _, x in terms if x < 0)
+    ub_c, lb_c = min(hi, ub - const), max(lo, lb - const)
+    if hi <= ub_c and lo >= lb_c:
+        return []
+    if ub_c < lb_c:
+        return None
+    S = int(ub_c - lb_c)
+    if S == 0:
+        return []
+    n = S.bit_length() - 1
+    return [2 ** j for j in range(n)] + ([S - 2 ** n + 1] if S - 2 ** n >= 0 else [])
+
+
+def ref_equality(P, terms, lm, c):
+    """P += lm * (sum a_i x_i + c) ** 2, expanded exactly: x * x = x (BINARY) or 1 (SPIN); every pair of distinct variables
+    named by the terms gets an interaction (also one with bias 0)"""
+    A = {}
+    for v, a in terms:
+        P.ensure(v)
+        A[v] = A.get(v, F(0)) + a
+    P.off += lm * c * c
+    for v, a in A.items():
+        if P.vt == 'BINARY':
+            P.lin[v] += lm * (a * a + 2 * a * c)
+        else:
+            P.lin[v] += 2 * lm * a * c
+            P.off += lm * a * a
+    vs = list(A)
+    for i, u in enumerate(vs):
+        for v in vs[i + 1:]:
+            P.quad[pkey(u, v)] = P.quad.get(pkey(u, v), F(0)) + 2 * lm * A[u] * A[v]
+    return True
+
+
+BULK = ('alf', 'aqf', 'up', 'ala', 'aqd', 'fxs', 'rif', 'rvf')
 SITE = {'sci': 'scale(ignored)', 'nz': 'normalize', 'al': 'add_linear', 'sl': 'set_linear', 'aq': 'add_quadratic', 'sq': 'set_quadratic', 'ri': 'remove_interaction',
         'rv': 'remove_variable', 'av': 'add_variable', 'rs': 'resize', 'sc': 'scale', 'of': 'offset.setter',
         'cv': 'change_vartype', 'fx': 'fix_variable', 'ct': 'contract_variables', 'fl': 'flip_variable',
         'rl': 'relabel_variables', 'rli': 'relabel_variables_as_integers', 'cl': 'clear', 'up': 'update',
-        'alf': 'add_linear_from', 'aqf': 'add_quadratic_from', 'ala': 'add_linear_from_array', 'aqd': 'add_quadratic_from_dense'}
+        'alf': 'add_linear_from', 'aqf': 'add_quadratic_from', 'ala': 'add_linear_from_array', 'aqd': 'add_quadratic_from_dense',
+        'ao': 'add_offset', 'ai': 'add_interaction', 'fxs': 'fix_variables', 'rif': 'remove_interactions_from', 'rvf': 'remove_variables_from',
+        'lec': 'add_linear_equality_constraint', 'lic': 'add_linear_inequality_constraint'}
 
 
 def apply_ref(P, op, selfref):
@@ -900,6 +1054,35 @@ def apply_ref(P, op, selfref):
             if not hashable(u) or not hashable(v) or not num(b) or u == v: return False
             P.add_quadratic(u, v, b)
         return True
+    if k == 'ao':
+        P.off += a[0]; return True
+    if k == 'ai': return P.add_quadratic(a[0], a[1], a[2])
+    if k == 'fxs':
+        items = list(dict(a[0]).items()) if a[1] == 'dict' else a[0]
+        for v, x in items:
+            if not P.fix_variable(v, x): return False
+        return True
+    if k == 'rif':
+        for u, v in a[0]:
+            if not P.remove_interaction(u, v): return False
+        return True
+    if k == 'rvf':
+        for v in a[0]:
+            if not P.remove_variable(v): return False
+        return True
+    if k == 'lec': return ref_equality(P, a[0], a[1], a[2])
+    if k == 'lic':
+        sl = slack_coefficients(op)
+        if sl is None:
+            return False
+        hi = sum(x for _, x in a[0] if x > 0); lo = sum(x for _, x in a[0] if x < 0)
+        ub_c, lb_c = min(hi, a[5] - a[3]), max(lo, a[4] - a[3])
+        if hi <= ub_c and lo >= lb_c:
+            return True                                   # nothing to enforce: the model is left alone
+        names = [f'slack_{a[2]}_{j}' for j in range(len(sl))]
+        for nm in names:
+            P.ensure(nm)
+        return ref_equality(P, list(a[0]) + [(nm, F(c)) for nm, c in zip(names, sl)], a[1], F(-ub_c))
     raise AssertionError(k)
 
 
@@ -941,8 +1124,9 @@ def repro_script(dt, vt0, hist, tail):
     return '\n'.join(head + hist + tail) + '\n'
 
 
-def bqm_history(ctx, r, dt, nops, lines, expect, meta, malformed_rate, script=None, vt0=None):
-    """`script` = [(mode in 'd' | 'v', op), …] replaces the random choices (small-scope exhaustive sweep)"""
+def bqm_history(ctx, r, dt, nops, lines, expect, meta, malformed_rate, script=None, vt0=None, rmode=False, reads_always=False):
+    """`script` = [(mode in 'd' | 'v', op), …] replaces the random choices (small-scope exhaustive sweep);
+    `rmode` = range-labelled history (see `gen_op`); `reads_always` = every read path after every step"""
     vt0 = vt0 or r.choice(['SPIN', 'BINARY'])
     if script is not None:
         nops = len(script)
@@ -950,6 +1134,9 @@ def bqm_history(ctx, r, dt, nops, lines, expect, meta, malformed_rate, script=No
     ref = RefB(vt0)
     ordered = dt != 'obj'
     held = {}            # view objects obtained earlier (may be stale)
+    # read objects REACHED from the model once, before any edit, and read again after the edits (a per-object cache that an
+    # in-place mutation does not refresh shows here): the Variables object and the linear / quadratic / adj views
+    reached = (b.variables, b.linear, b.quadratic, b.adj)
     hist = []            # repro source lines
     lines.append(f'new {vt0}'); expect.append(('text', 'ok ' + ref.text())); meta.append((dt, 'new', None))
     psync = True         # object back-end: the driver's dict model (`PyB`) holds the real `_adj`
@@ -959,6 +1146,8 @@ def bqm_history(ctx, r, dt, nops, lines, expect, meta, malformed_rate, script=No
         malformed = r.random() < malformed_rate
         # through which object?
         mode = r.random() if script is None else (.1 if script[step][0] == 'v' else .9)
+        if rmode and script is None and mode < .4 and r.random() < .6:
+            mode = .9            # the index-level adders exist on the model only
         via, obj, name = 'd', b, 'b'
         if mode < .3:
             T = OTHER[ref.vt]
@@ -974,7 +1163,7 @@ def bqm_history(ctx, r, dt, nops, lines, expect, meta, malformed_rate, script=No
         tv = ref.vt if via == 'd' else ('SPIN' if via == 'vs' else 'BINARY')
         if dt == 'obj' and ordered is False:
             ref.labels = list(b.variables)     # order is the object's own (not promised by C04)
-        op = gen_op(r, ref.convert(tv), malformed, obj=(dt == 'obj')) if script is None else script[step][1]
+        op = gen_op(r, ref.convert(tv), malformed, obj=(dt == 'obj'), rmode=rmode) if script is None else script[step][1]
         k = op[0]
         before = ref.copy()
         # ---- expected result by algebra
@@ -997,6 +1186,9 @@ def bqm_history(ctx, r, dt, nops, lines, expect, meta, malformed_rate, script=No
         # precision guard: cut the history before an op whose exact result does not fit the dtype
         if not all(fits(x, MANT[dt]) for x in new.values() + P.values() + [getattr(P, 'scalar', F(1)), getattr(P, 'invscalar', F(1))]):
             ctx.tick('cut_for_precision')
+            break
+        if k in ('lec', 'lic') and not all(fits(x, MANT[dt] - 6) for x in new.values() + before.values()):
+            ctx.tick('cut_for_precision')     # several native additions per coefficient: head room for the intermediate sums
             break
         # ---- model line(s)
         ln = line_of(via, op, ref.convert(tv))
@@ -1033,6 +1225,18 @@ def bqm_history(ctx, r, dt, nops, lines, expect, meta, malformed_rate, script=No
             ctx.tick('exc:' + type(exc).__name__)
         if k in ('aqd', 'ala') and via == 'd' and is_range(before.labels) and len(op[1]) > len(before.labels):
             ctx.tick(f'{k}:larger-than-range-model' + (':rejected' if exc is not None else ':resized'))
+        if k == 'aqd' and via == 'd' and exc is None and is_range(before.labels):
+            # which branch of QuadraticModelBase::add_quadratic_from_dense the call took, and where the pairs it touched sat
+            ctx.tick('aqd:branch:' + ('is_linear (append)' if not before.quad else 'has interactions (sorted insert)'))
+            d_, n_ = op[1], len(op[1])
+            for i_ in range(n_):
+                for j_ in range(i_ + 1, n_):
+                    if d_[i_][j_] + d_[j_][i_] != 0:
+                        if frozenset((i_, j_)) not in before.quad:
+                            ctx.tick('aqd:term:new-pair' + (':in-model-with-interactions' if before.quad else ''))
+                        else:
+                            last = all(max(before.labels.index(w) for w, _ in before.nbrs(a_)) == c_ for a_, c_ in ((i_, j_), (j_, i_)))
+                            ctx.tick('aqd:term:existing-pair:' + ('last-of-both-neighbourhoods' if last else 'inside-a-neighbourhood'))
         site = ('BQM.' if via == 'd' else 'VartypeView.') + SITE[k] + ('' if dt != 'obj' else '[object]')
         if len(b.variables) != b.num_variables:
             # label list and native model out of step: any further read may abort the interpreter (D32)
@@ -1128,7 +1332,7 @@ def bqm_history(ctx, r, dt, nops, lines, expect, meta, malformed_rate, script=No
                 meta.append((dt, 'pyBQM load after ' + src, list(hist[-12:])))
                 psync = True
         # (iii) read paths, on the model and through its views
-        if (script is None and r.random() < .35) or step == nops - 1:
+        if (script is None and r.random() < .35) or step == nops - 1 or reads_always or (k in ('aqd', 'ala', 'rs') and via == 'd'):
             for T, o2 in ((ref.vt, b), (OTHER[ref.vt], b.spin if ref.vt == 'BINARY' else b.binary)):
                 try:
                     bad = check_reads(o2, ref.convert(T), ordered, r)
@@ -1139,6 +1343,28 @@ def bqm_history(ctx, r, dt, nops, lines, expect, meta, malformed_rate, script=No
                              f'after {src}: {bad}', repro=repro_script(dt, vt0, hist, ['print(state(b))', 'assert False, ' + repr(bad)]),
                              detail=dict(history=hist[-8:], expected=ref.convert(T).text()))
                     return
+            try:
+                V0, lin0, quad0, adj0 = reached
+                Lr = list(V0)
+                badr = None
+                if (Lr != ref.labels if ordered else sorted(map(lab, Lr)) != sorted(map(lab, ref.labels))) or len(V0) != len(ref.labels):
+                    badr = f'the Variables object obtained before the edits lists {Lr!r}, the model has {ref.labels!r}'
+                elif {v: fr(x) for v, x in lin0.items()} != ref.lin or len(lin0) != len(ref.lin):
+                    badr = 'the linear view obtained before the edits differs from the polynomial'
+                elif {pkey(*kk): fr(x) for kk, x in quad0.items()} != ref.quad or len(quad0) != len(ref.quad):
+                    badr = 'the quadratic view obtained before the edits differs from the polynomial'
+                elif {v: {u: fr(x) for u, x in adj0[v].items()} for v in adj0} != {v: dict(ref.nbrs(v)) for v in ref.labels}:
+                    badr = 'the adj view obtained before the edits differs from the polynomial'
+                elif any((v in V0) != (v in ref.lin) or (ordered and v in ref.lin and V0.index(v) != Lr.index(v)) for v in LABELS):
+                    badr = 'membership / index of the Variables object obtained before the edits'
+            except Exception as e:  # noqa
+                badr = f'reading an object obtained before the edits raised {type(e).__name__}: {e}'
+            if badr:
+                ctx.fail('property', 'BQM read paths' + ('' if dt != 'obj' else '[object]'), 'objects reached before the edits',
+                         f'after {src}: {badr}', repro=repro_script(dt, vt0, ['V0, lin0, quad0, adj0 = b.variables, b.linear, b.quadratic, b.adj'] + hist,
+                                                                    ['print(list(V0), dict(lin0), dict(quad0)); print(state(b))', 'assert False, ' + repr(badr)]),
+                         detail=dict(history=hist[-8:], expected=ref.text()))
+                return
             ctx.tick('reads_checked')
             # every reader as the model defines it (`Bqm.getLinear` … `toNumpyVectors`, the subjects of `readers_consistent`)
             if ordered:
@@ -1189,10 +1415,11 @@ def run(ctx):
     for dt in ('f64', 'f32', 'obj'):
         lines, expect, meta = [], [], []
         for _ in range(nh):
-            bqm_history(ctx, r, dt, r.randint(1, 40), lines, expect, meta, .1)
+            bqm_history(ctx, r, dt, r.randint(1, 40), lines, expect, meta, .1, rmode=(r.random() < .3))
             if len([f for f in ctx.failures if f['kind'] == 'property']) >= 60:
                 break
         compare(ctx, 'bqmdriver', lines, expect, meta, f'BQM[{dt}] vs Lean Bqm')
+    dense_sweep(ctx, r)
     if not ctx.quick:
         exhaustive(ctx, r)
     from harness.props import c04_qm
@@ -1202,6 +1429,37 @@ def run(ctx):
     bq = lambda code: any(k.split(':')[0] == code and k.split(':')[1:2] in (['d'], ['view']) for k in ctx.hist) or (code == 'sc' and any(k.startswith('sci:') for k in ctx.hist))
     qq = lambda code: any(k == 'qm:' + code or k.startswith('qm:' + code + ':') for k in ctx.hist)
     c04_alphabet.alphabet_check(ctx, {'BinaryQuadraticModel': bq, 'QuadraticModel': qq})
+
+
+def dense_sweep(ctx, r):
+    """small scope, every run: every graph on the range labels 0, 1, 2 (optionally a 4th variable tied to 0 or 2, so that a pair
+    of the leading block is or is not the last entry of a neighbourhood) x every non-empty set of pairs named by a 3 x 3 dense
+    matrix x the entry used (upper / lower / split) x float64 / float32 x both vartypes; every read path after every step"""
+    pairs = [(0, 1), (0, 2), (1, 2)]
+    lines, expect, meta = [], [], []
+    n = 0
+    for dt in ('f64', 'f32'):
+        for vt0 in ('SPIN', 'BINARY'):
+            for g in range(8):
+                for extra in (None, (0, 3), (2, 3)):
+                    for dset in range(1, 8):
+                        for place in ('upper', 'lower', 'split'):
+                            script = [('d', ('rs', 4 if extra else 3))]
+                            es = [pq for i, pq in enumerate(pairs) if g >> i & 1] + ([extra] if extra else [])
+                            r.shuffle(es)
+                            script += [('d', ('aq',) + (pq if r.random() < .5 else pq[::-1]) + (F(r.choice([-3, -1, 1, 2, 5]), 4),)) for pq in es]
+                            d = [[F(0)] * 3 for _ in range(3)]
+                            for i, (u, v) in enumerate(pairs):
+                                if dset >> i & 1:
+                                    x = F(r.choice([-5, -2, 1, 3, 6]), 4)
+                                    d[u][v], d[v][u] = {'upper': (x, F(0)), 'lower': (F(0), x), 'split': (x - F(1, 2), F(1, 2))}[place]
+                            script.append(('d', ('aqd', d)))
+                            if r.random() < .5:
+                                script.append(('d', r.choice([('aq', 0, 1, F(1, 4)), ('sq', 1, 2, F(-1, 2)), ('ri', 0, 2), ('rv', None), ('aqd', d)])))
+                            bqm_history(ctx, r, dt, len(script), lines, expect, meta, 0, script=script, vt0=vt0, reads_always=True)
+                            n += 1
+    compare(ctx, 'bqmdriver', lines, expect, meta, 'BQM vs Lean Bqm (dense sweep)')
+    ctx.extra['dense_sweep_histories'] = n
 
 
 def exhaustive(ctx, r):
